@@ -348,9 +348,14 @@ func (r *Runner) RandomBatch() {
 		// insert: mostly fresh ids; sometimes an existing id or a duplicate
 		var b []GenPoint
 		for _, id := range r.pickIDs(n, 0.08) {
+			if r.Cfg.Mem && r.believedLive[id] {
+				// the memory backend has no rollback: the properties speak
+				// about it only for histories of successful batches
+				continue
+			}
 			b = append(b, GenPoint{id, r.G.Doc(false, 0.8)})
 		}
-		if len(b) > 0 && r.R.Intn(12) == 0 {
+		if len(b) > 0 && r.R.Intn(12) == 0 && !r.Cfg.Mem {
 			b = append(b, GenPoint{b[0].ID, r.G.Doc(false, 0.8)})
 		}
 		r.Insert(b)
